@@ -3,5 +3,5 @@ From Coq Require Import ZArith List.
 Require Import PV.Model.KeyStruct PV.Model.KeyHist.
 Require Extraction.
 Require Import ExtrOcamlBasic.
-Extraction "../ocaml/gen/ex_c15.ml" apply apply_prefix run effective key_expiry key_revocations sub_revocations uid_revocations
+Extraction "../ocaml/gen/ex_c15.ml" apply apply_prefix run effective effective_old key_expiry key_expiry_old key_revocations sub_revocations uid_revocations
   inv_key sorted_key good_key inv_world pubkey_of export import Z.add Z.mul.
